@@ -593,6 +593,9 @@ def c17():
 
 
 OLC_SCEN = {  # scenario -> (max preemption index explored = atomic accesses of thread A's operation + margin; what it exercises)
+    'p_ins_split_child': (80, 'insert into an inner node below the root whose key prefix is split (cut in place) between the read of the parent slot and the lock of the node'),
+    'p_get_split_child': (45, 'reader of a leaf under an inner node below the root while its key prefix is split'),
+    'p_rem_split_child': (80, 'remove under an inner node below the root while its key prefix is split'),
     'c_get_k1_rem_k0': (45, 'reader inside the inner node onto which a two-child root collapses'),
     'c_get_k2_rem_k0': (45, 'reader inside the inner node onto which a two-child root collapses (other leaf)'),
     'c_get_k0_rem_k1': (45, 'reader of the sibling leaf while the inner two-child node collapses onto a leaf'),
@@ -618,7 +621,7 @@ OLC_SCEN = {  # scenario -> (max preemption index explored = atomic accesses of 
     'n_get2_ins400': (60, 'reader three levels deep while an inner node on its path is replaced by a larger one'),
     'n_rem3_ins400': (100, 'remove three levels deep while the parent of its node is replaced'),
 }
-OLC_QUICK = {'C03': {'c_get_k1_rem_k0', 'g_ins5_rem1', 'g_ins5_ins5', 'l_get_rem', 's_get2_rem5', 'p_rem_split'}, 'C04': {'c_get_k1_rem_k0', 'l_get_rem', 's_get2_rem5'}, 'C14': {'g_ins5_rem1', 'n_ins4_ins400', 'l_rem_ins'}, 'C10': {'g_ins5_rem1'}}
+OLC_QUICK = {'C03': {'p_ins_split_child', 'c_get_k1_rem_k0', 'g_ins5_rem1', 'g_ins5_ins5', 'l_get_rem', 's_get2_rem5', 'p_rem_split'}, 'C04': {'c_get_k1_rem_k0', 'l_get_rem', 's_get2_rem5'}, 'C14': {'g_ins5_rem1', 'n_ins4_ins400', 'l_rem_ins'}, 'C10': {'g_ins5_rem1'}}
 OLC_KNOWN = {}    # (scenario, k) -> known finding id; filled from known_findings.txt ids below
 
 
